@@ -162,7 +162,7 @@ def sibling_document(src):
 
 
 def list_template(ctx, p):
-    ds, de = [60], [62]
+    ds, de = list(p.get('ds', '<').encode()), list(p.get('de', '>').encode())
     cfg = cfg_from(p)
     src, parts = render(ctx, no_linebreak_classes(p['tpl']), ds, de)
     for b in src:
@@ -313,6 +313,9 @@ LIST_TPL = {
     # tags spread over several lines: the one-byte end delimiter is the first byte of a line (the region's last line is that line)
     'multi-line-tags-block': ["A\n", H(1, 'ind'), O('m', RX + "\n"), "\nr\n", C('m', "\n"), H(1, 'txt'), "\nB\n"],
     'multi-line-tags-inline': ["a ", O('t', RT + "\n"), "x", C('t', "\n"), H(1, 'txt'), " b\n", O('m', PN + "\n"), "p", C('m', "\n"), "\nB\n"],
+    # regions whose last byte lies inside a multi-byte character (end of an unwrap wrapper line) and multi-byte text around the tags
+    'unwrap-wrapper-lines-end-multibyte': ["A\n", O('m', RX + ' unwrap-block'), "\nif (x) { // 公開", H(1, 'nb'), "\n  k;\n} // 終了", H(1, 'txt'), "\n", C('m'), "\nB\n"],
+    'multibyte-around-tags': ["日本語", H(1, 'txt'), O('m', RX), "削除", C('m'), "語", H(1, 'txt'), "\né ", O('t', RT), "\nq\n", C('t'), "é\n"],
     'leading-line-break': ["\n", H(1, 'ind'), "A\n", O('m', RX), "\nr\n", C('m'), "\nB\n"],
 }
 
@@ -334,5 +337,10 @@ def list_jobs(hname):
                 continue  # C15 quantifies over files whose first byte is not a line break
             for sizes in variants(tpl, budget, 2, rnd, 2 if tier == 'quick' else 10):
                 jobs.append(dict(harness=hname, label=f'{name} holes={sizes}', params=dict(tpl=instantiate(tpl, sizes))))
+        # multi-byte delimiters: the last byte of a default-strategy region is then inside a character as well
+        for name in ('pending-siblings-then-ready', 'inline-two-on-a-line', 'unwrap-wrapper-lines-end-multibyte') + (() if tier == 'quick' else ('adjacent-inline', 'tabs-and-columns')):
+            if name in base:
+                for sizes in variants(base[name], budget, 2, rnd, 1):
+                    jobs.append(dict(harness=hname, label=f"{name} holes={sizes} ds='«' de='»'", params=dict(tpl=instantiate(base[name], sizes), ds='«', de='»')))
         return jobs
     return f
